@@ -165,6 +165,64 @@ Fixpoint xtree (key : option bytes) (v : jv) : list xnode :=
       end
   end.
 
+(* ---- does a document equal the writer's output for a value, up to the order of the members of
+        its maps (HashMap iteration order differs between two runs of the tool)? ----
+   xml_match key v s: the possible remainders of s after one rendering of v under key *)
+Definition take_pref (p s : bytes) : list bytes := match drop_prefix p s with Some r => [r] | None => [] end.
+Fixpoint remove_nth {A} (n : nat) (l : list A) : list A :=
+  match n, l with
+  | O, _ :: r => r
+  | S n', x :: r => x :: remove_nth n' r
+  | _, [] => []
+  end.
+Fixpoint xml_match (fuel : nat) (key : option bytes) (v : jv) (s : bytes) : list bytes :=
+  match fuel with
+  | O => []
+  | S f =>
+      match raw_number v with
+      | Some t =>
+          (* a number that is not an integer: the JSON and the XML output print the same f32 / f64 with
+             different numbers of digits, so any number text is accepted here (the values are compared
+             through the BSON output) *)
+          let is_num c := ((48 <=? c) && (c <=? 57)) || (c =? 43) || (c =? 45) || (c =? 46) || (c =? 101) || (c =? 69) in
+          let body r := match span_until (fun c => negb (is_num c)) r with ([], _) => [] | (_, r') => [r'] end in
+          match key with
+          | Some k => flat_map (take_pref (tag_close k)) (flat_map body (take_pref (tag_open k) s))
+          | None => body s
+          end
+      | None =>
+          match v with
+          | JObj l =>
+              let opened := match key with Some k => take_pref (tag_open k) s | None => [s] end in
+              let inner := flat_map (xml_match_members f l) opened in
+              match key with Some k => flat_map (take_pref (tag_close k)) inner | None => inner end
+          | JList l =>
+              let k := Some (match key with Some k => k | None => str "item" end) in
+              fold_left (fun rems item => flat_map (xml_match f k item) rems) l [s]
+          | JNull => match key with Some k => take_pref (tag_empty k) s | None => [s] end
+          | JStr t => take_pref (wrap key (xml_escape t)) s
+          | JNum z => take_pref (wrap key (xml_escape (show_Z z))) s
+          | JBool b => take_pref (wrap key (xml_escape (show_bool b))) s
+          end
+      end
+  end
+with xml_match_members (fuel : nat) (l : list (string * jv)) (s : bytes) : list bytes :=
+  match fuel with
+  | O => []
+  | S f =>
+      match l with
+      | [] => [s]
+      | _ => flat_map (fun i => match nth_error l i with
+                                | Some (k, v) => flat_map (xml_match_members f (remove_nth i l)) (xml_match f (Some (str k)) v s)
+                                | None => []
+                                end) (seq 0 (List.length l))
+      end
+  end.
+Definition xml_conforms (doc : bytes) (v : jv) : bool :=
+  existsb (fun r => match r with [] => true | _ => false end)
+          (flat_map (take_pref (tag_close (str "data")))
+                    (flat_map (xml_match 4096 None v) (take_pref (xml_decl ++ tag_open (str "data")) doc))).
+
 (* equality of trees up to the order of the children (members of a map have no order) *)
 Fixpoint remove_first {A} (p : A -> bool) (l : list A) : option (list A) :=
   match l with
